@@ -31,44 +31,60 @@ def tok_byte_start_assign(ctx):
     P = ctx.lib
     b = P.fn("tokenizer::tokenize")
     folds = [n for n in T.nodes(b["tree"], "mcall") if n["name"] == "fold" and T.render(n["recv"]) == "source.char_indices()"]
-    if len(folds) != 1:
-        return False, "scan fold over source.char_indices() not found"
-    fold = folds[0]
-    seed = T.peel(fold["args"][0])
-    clo = T.peel(fold["args"][1])
-    accp, itemp = clo["params"][0]["pat"], clo["params"][1]["pat"]
-    if accp["p"] != "tuple" or itemp["p"] != "tuple" or itemp["pats"][0]["p"] != "bind":
-        return False, "closure parameter shape"
+    loops = [n for n in T.nodes(b["tree"], "for") if T.render(n["iter"]) == "source.char_indices()"]
+    if len(folds) == 1 and not loops:
+        fold = folds[0]
+        seed = T.peel(fold["args"][0])
+        clo = T.peel(fold["args"][1])
+        accp, itemp = clo["params"][0]["pat"], clo["params"][1]["pat"]
+        if accp["p"] != "tuple" or itemp["p"] != "tuple" or itemp["pats"][0]["p"] != "bind":
+            return False, "closure parameter shape"
+        scope = clo["body"]
+        ids = {p["id"]: (i, p["name"]) for i, p in enumerate(accp["pats"]) if p["p"] == "bind"}
+    elif len(loops) == 1 and not folds:
+        loop = loops[0]
+        itemp = loop["pat"]
+        if itemp["p"] != "tuple" or itemp["pats"][0]["p"] != "bind":
+            return False, "loop pattern shape"
+        scope = loop["body"]
+        ids = {s_["pat"]["id"]: (None, s_["pat"]["name"]) for s_ in T.nodes(b["tree"], "let") if s_["pat"]["p"] == "bind" and "Mut" in s_["pat"].get("mode", "")}
+        seed = None
+        clo = None
+    else:
+        return False, "scan over source.char_indices() not found (fold or for)"
     pos_id = itemp["pats"][0]["id"]
-    # which accumulator component is byte_start_pos: the one used as lower slice bound
-    ids = {p["id"]: (i, p["name"]) for i, p in enumerate(accp["pats"]) if p["p"] == "bind"}
     lows = set()
-    for n in T.nodes(clo["body"], "index"):
+    for n in T.nodes(scope, "index"):
         rng = T.peel(n["idx"])
         if rng.get("k") == "struct":
             for f in rng["fields"]:
                 if f["name"] == "start" and T.local_of(f["e"]) in ids:
                     lows.add(T.local_of(f["e"]))
     if len(lows) != 1:
-        return False, "lower slice bound accumulator not identified"
+        return False, "lower slice bound variable not identified"
     lid = lows.pop()
     i, name = ids[lid]
-    if T.lit_value(seed["es"][i]) != 0:
-        return False, "seed of %s is not the literal 0" % name
-    for n in T.nodes(clo["body"]):
+    if seed is not None:
+        if T.lit_value(seed["es"][i]) != 0:
+            return False, "seed of %s is not the literal 0" % name
+    else:
+        inits = [s_ for s_ in T.nodes(b["tree"], "let") if s_["pat"]["p"] == "bind" and s_["pat"]["id"] == lid]
+        if len(inits) != 1 or T.lit_value(inits[0]["init"]) != 0:
+            return False, "%s is not initialised to the literal 0" % name
+    for n in T.nodes(b["tree"]):
         if n.get("k") == "assign" and T.local_of(n["l"]) == lid:
             if T.local_of(n["r"]) != pos_id:
                 return False, "%s is assigned `%s`, not the current char_indices position" % (name, T.render(n["r"]))
         if n.get("k") == "assign_op" and T.local_of(n["l"]) == lid:
             return False, "%s is modified by `%s`" % (name, T.render(n))
-    # the closure returns it unchanged in the same slot
-    ret = T.peel(clo["body"])
-    while ret.get("k") in ("blockexpr", "block"):
-        blk = ret["block"] if ret["k"] == "blockexpr" else ret
-        ret = T.peel(blk["tail"]) if blk.get("tail") is not None else {}
-    if ret.get("k") != "tuple" or T.local_of(ret["es"][i]) != lid:
-        return False, "the accumulator slot of %s is not handed on unchanged" % name
-    return True, "%s: seed 0, only `= %s` (the char_indices position)" % (name, itemp["pats"][0]["name"])
+    if clo is not None:
+        ret = T.peel(clo["body"])
+        while ret.get("k") in ("blockexpr", "block"):
+            blk = ret["block"] if ret["k"] == "blockexpr" else ret
+            ret = T.peel(blk["tail"]) if blk.get("tail") is not None else {}
+        if ret.get("k") != "tuple" or T.local_of(ret["es"][i]) != lid:
+            return False, "the accumulator slot of %s is not handed on unchanged" % name
+    return True, "%s: initial 0, only `= %s` (the char_indices position)" % (name, itemp["pats"][0]["name"])
 
 
 def tok_merge_order(ctx):
@@ -184,11 +200,17 @@ def fmt_pair_indices(ctx):
     # get_removed_pos pushes exactly one position per marker, carrying the pair index unchanged
     P = ctx.lib
     b = P.fn("remover::get_removed_pos")
+    tr, why = _marker_traversal(b)
+    if tr is None:
+        return False, why
     pushes = [n for n in T.nodes(b["tree"], "mcall") if n["name"] == "push"]
-    if len(pushes) != 1 or "*pair_pos" not in T.render(pushes[0]):
+    top = _top_stmts(tr["body"])
+    item = tr["item"]
+    pair_id = item["pats"][1]["id"] if item.get("p") == "tuple" and len(item["pats"]) == 2 and item["pats"][1]["p"] == "bind" else None
+    arg = T.peel(pushes[0]["args"][0]) if len(pushes) == 1 else {}
+    if len(pushes) != 1 or not any(st is pushes[0] for st in top) or pair_id is None or arg.get("k") != "tuple" or len(arg["es"]) != 2 \
+            or T.local_of(T.peel_ref(arg["es"][1])) != pair_id:
         return False, "get_removed_pos does not push exactly one (position, *pair index) per marker"
-    if T.render(T.peel(b["tree"])).count("markers.iter()") != 1:
-        return False, "get_removed_pos does not traverse all markers once"
     # format indexes the same list it iterates
     f = P.fn("code::formatter::format")
     idx = [n for n in T.nodes(f["tree"], "index") if T.render(n["base"]) == "removed_pos"]
@@ -247,17 +269,65 @@ def elr_panic_guard(ctx):
     return True, "no explicit panic"
 
 
+def _marker_traversal(b):
+    """The single traversal of `markers` in get_removed_pos: `markers.iter().fold(seed, |acc, item| ..)` or
+    `for item in markers { .. }`.  Returns dict(form, body, item, seeds {local id: seed expr}) or (None, reason)."""
+    folds = [n for n in T.nodes(b["tree"], "mcall") if n["name"] == "fold" and T.render(n["recv"]) == "markers.iter()"]
+    fors = [n for n in T.nodes(b["tree"], "for") if T.render(T.peel_ref(n["iter"])) in ("markers", "markers.iter()")]
+    others = [n for n in T.nodes(b["tree"], "mcall") if n["name"] in ("iter", "into_iter") and T.render(n["recv"]) == "markers"]
+    if len(folds) + len(fors) != 1 or len(others) > 1:
+        return None, "get_removed_pos does not traverse all markers once"
+    if folds:
+        clo = T.peel(folds[0]["args"][1])
+        seed = T.peel(folds[0]["args"][0])
+        accp = clo["params"][0]["pat"]
+        if clo.get("k") != "closure" or accp["p"] != "tuple" or seed.get("k") != "tuple" or len(seed["es"]) != len(accp["pats"]):
+            return None, "fold accumulator shape"
+        seeds = {p_["id"]: seed["es"][k] for k, p_ in enumerate(accp["pats"]) if p_["p"] == "bind"}
+        return {"form": "fold", "body": clo["body"], "item": clo["params"][1]["pat"], "seeds": seeds}, None
+    seeds = {s_["pat"]["id"]: s_["init"] for s_ in T.nodes(b["tree"], "let")
+             if s_["pat"]["p"] == "bind" and "Mut" in s_["pat"].get("mode", "") and s_.get("init") is not None}
+    return {"form": "for", "body": fors[0]["body"], "item": fors[0]["pat"], "seeds": seeds}, None
+
+
+def _top_stmts(body):
+    blk = T.peel(body)
+    while blk.get("k") == "blockexpr":
+        blk = blk["block"]
+    return [T.peel(st["e"]) if st.get("k") == "expr" else st for st in blk.get("stmts", [])] + ([T.peel(blk["tail"])] if blk.get("tail") is not None else [])
+
+
 def grp_removed_len(ctx):
     P = ctx.lib
     b = P.fn("remover::get_removed_pos")
-    ops = [T.render(n) for n in T.nodes(b["tree"]) if n.get("k") in ("assign_op", "assign")]
-    if ops != ["removed_len += (marker.end - marker.start)"]:
-        return False, "removed_len is updated by %s" % ops
-    # order: push before the update, seed 0
-    txt = T.render(T.peel(b["tree"]))
-    if txt.find("positions.push") > txt.find("removed_len +=") or "(std::vec::Vec::new(), 0)" not in txt:
-        return False, "push/update order or seed changed"
-    return True, "removed_len: seed 0, only `+= marker.end - marker.start` after the push"
+    tr, why = _marker_traversal(b)
+    if tr is None:
+        return False, why
+    item_ids = [x["id"] for x in T.pat_nodes(tr["item"]) if x.get("p") == "bind"]
+    mods = [n for n in T.nodes(b["tree"]) if n.get("k") in ("assign_op", "assign")]
+    if len(mods) != 1 or mods[0]["k"] != "assign_op" or not mods[0]["op"].startswith("+"):
+        return False, "the running total is updated by %s" % [T.render(n) for n in mods]
+    upd = mods[0]
+    acc = T.local_of(upd["l"])
+    r = T.peel(upd["r"])
+    okr = (r.get("k") == "binary" and r["op"] == "-" and T.peel(r["l"]).get("k") == "field" and T.peel(r["r"]).get("k") == "field"
+           and T.peel(r["l"])["name"] == "end" and T.peel(r["r"])["name"] == "start"
+           and T.local_of(T.peel_ref(T.peel(r["l"])["base"])) in item_ids and T.local_of(T.peel_ref(T.peel(r["r"])["base"])) == T.local_of(T.peel_ref(T.peel(r["l"])["base"])))
+    if not okr:
+        return False, "the running total is updated by `%s`, not by the length of the current marker" % T.render(upd)
+    if acc not in tr["seeds"] or T.lit_value(tr["seeds"][acc]) != 0:
+        return False, "the running total does not start at the literal 0"
+    # order: the position is pushed before the total is updated, both unconditionally in the traversal body
+    top = _top_stmts(tr["body"])
+    pi = [k for k, st in enumerate(top) if st.get("k") == "mcall" and st["name"] == "push"]
+    ui = [k for k, st in enumerate(top) if st is upd]
+    if len(pi) != 1 or len(ui) != 1 or pi[0] > ui[0]:
+        return False, "push/update order changed (or one of them is conditional)"
+    # the pushed position subtracts the running total
+    subs = [n for n in T.nodes(top[pi[0]], "binary") if n["op"] == "-" and T.local_of(n["r"]) == acc]
+    if len(subs) != 1:
+        return False, "the pushed position does not subtract the running total"
+    return True, "running total `%s`: seed 0, only `+= marker.end - marker.start` after the push (%s form)" % (T.render(upd["l"]), tr["form"])
 
 
 def markers_start_le_end(ctx):
